@@ -823,8 +823,13 @@ func (te *TemplateEngine) cloneDocument(source *Document) *Document {
 			doc.Body.Elements = append(doc.Body.Elements, clonedSectPr)
 
 		default:
-			// 其他类型暂时直接复制引用
-			doc.Body.Elements = append(doc.Body.Elements, element)
+			// 其他类型（目录等内容控件、书签、公式段落……）同样深拷贝：共享指针时，
+			// 对渲染结果的修改（例如 UpdateTOC）会改到模板的基础文档和其他渲染结果
+			if element == nil {
+				doc.Body.Elements = append(doc.Body.Elements, element)
+			} else {
+				doc.Body.Elements = append(doc.Body.Elements, deepCopyValue(reflect.ValueOf(element)).Interface())
+			}
 		}
 	}
 
